@@ -309,3 +309,74 @@ Proof.
   intros H. apply andb_true_iff in H. destruct H as [A B].
   apply C04_all_histories; [now apply wf_histb_ok|now apply wf4b_ok].
 Qed.
+
+(* ================================================================ C13 for the scoped try variants *)
+Lemma can_all_leaf_avail sc m s :
+  (forall k l, In (k, l) (kleaves s) -> l < sc_nlocks sc /\ (m = Sh -> k = KRw)) ->
+  forall w, can_all m (kleaves s) (w_raw w) =
+            forallb (fun l => leaf_avail m (nth l (snapshot_holds (sc_nlocks sc) w) raw_free)) (leaves s).
+Proof.
+  intros H w. rewrite leaves_kleaves. unfold can_all, locks_of. rewrite forallb_map'.
+  apply forallb_ext_in'. intros [k l] Hin. cbn [fst snd]. destruct (H k l Hin) as [Hl Hm].
+  rewrite nth_snapshot_holds by exact Hl. now apply leaf_avail_can1.
+Qed.
+
+Theorem C13_scoped_try_exact sc t c m lent body :
+  wf_hist sc -> wf4 sc ->
+  sc_hist sc = [(t, AKeyGet); (t, AAcquire c m (FScopedTry lent body))] ->
+  mon_C13 sc (model_obs sc) = true.
+Proof.
+  intros W W4 Hh.
+  assert (In1 : In (t, AKeyGet) (sc_hist sc)) by (rewrite Hh; now left).
+  assert (In2 : In (t, AAcquire c m (FScopedTry lent body)) (sc_hist sc)) by (rewrite Hh; right; now left).
+  set (nl := sc_nlocks sc). set (np := sc_npids sc).
+  set (h0 := mkh (sc_world sc) (fun _ => tl0) false).
+  pose proof (qinv_init sc W) as Q0. fold h0 in Q0.
+  (* first call: ThreadKey::get *)
+  pose proof (step_keyget (sc_env sc) nl np h0 t eq_refl) as S1.
+  destruct (qstep sc nl np h0 (fun _ => mt0) t AKeyGet W Q0 In1) as [h1 [co1 [St1 [_ [_ [_ [_ [_ Q1]]]]]]]].
+  rewrite S1 in St1. inversion St1; subst h1 co1. clear St1. specialize (Q1 eq_refl). cbn [co_ret] in Q1.
+  set (h1 := mkh (set_keyf (clear_trace (h_w h0)) t true)
+                 (upd (h_loc h0) t (mkt (haskey (h_loc h0 t) || negb (w_keyf (h_w h0) t)) (guard (h_loc h0 t)))) false) in *.
+  (* second call *)
+  destruct (hstep_cases sc nl np h1 _ t _ W Q1 In2) as [[Hp E]|[p [out [w' [Hp [Rn [CO E]]]]]]].
+  { exfalso. cbn [api_prog] in Hp. destruct (wh_colls _ W t c m _ In2) as [s [Hn _]].
+    unfold coll in Hp. change (e_colls (sc_env sc)) with (sc_colls sc) in Hp. rewrite Hn in Hp.
+    unfold h1 in Hp. cbn [h_loc h0] in Hp. rewrite upd_same in Hp. cbn in Hp. discriminate Hp. }
+  unfold model_obs. rewrite Hh. fold nl np h0.
+  rewrite (hrun_cons _ _ _ h0 (t, AKeyGet) _ _ _ S1). fold h1.
+  rewrite (hrun_cons _ _ _ h1 _ [] _ _ E). cbn [hrun snd app].
+  unfold mon_C13. rewrite Hh.
+  destruct (wh_colls _ W t c m _ In2) as [s [Hn [Ha ND]]]. rewrite Hn.
+  assert (Hs : shape_of sc c = s) by (unfold shape_of; now rewrite Hn).
+  assert (Hk4 : forall k l, In (k, l) (kleaves s) -> l < sc_nlocks sc /\ (m = Sh -> k = KRw)).
+  { intros k l Hin. apply (W4 t c m _ In2). now rewrite Hs. }
+  cbn [co_ret co_holds].
+  set (lc := h_loc h1 t) in *. set (w := clear_trace (h_w h1)) in *.
+  set (rc := snd (api_fin (sc_env sc) lc (AAcquire c m (FScopedTry lent body)) out)) in *.
+  assert (Raw0 : forall x, w_raw w x = w_raw (sc_world sc) x) by reflexivity.
+  assert (Pre : pre_holds sc = snapshot_holds nl w) by (unfold pre_holds; apply snapshot_holds_ext; intros x; now rewrite Raw0).
+  rewrite Pre. cbn zeta. unfold nl. rewrite <- (can_all_leaf_avail sc m s Hk4 w). fold nl.
+  (* the outcome is decided by availability *)
+  assert (Hrc : if can_all m (kleaves s) (w_raw w) then rc = ROk \/ rc = RPanicked else rc = RWouldBlock).
+  { assert (Hk : haskey lc = true) by (eapply acq_haskey; exact Hp).
+    cbn [api_prog] in Hp. unfold coll in Hp. change (e_colls (sc_env sc)) with (sc_colls sc) in Hp. rewrite Hn, Hk in Hp. injection Hp as <-.
+    destruct (run_raw_try t m (e_am (sc_env sc)) s w (quiet_clear _ (qi_quiet _ _ _ Q1)) Ha ND) as [w1 [R1 E1]].
+    cbn [sc_env e_am e_fuel] in R1.
+    pose proof (run_with_key_done nopw t (negb lent) false _ _ _ _ R1) as Rk'. cbn iota in Rk'.
+    rewrite (run_bind_done _ _ _ _ _ _ _ Rk') in Rn. cbn [vtrue] in Rn.
+    destruct (can_all m (kleaves s) (w_raw w)) eqn:Cn.
+    - assert (Qw1 : quiet w1) by (eapply eff_quiet; [exact E1|apply quiet_clear, (qi_quiet _ _ _ Q1)]).
+      assert (Ep : effp w1 w1 (acq_all t m (kleaves s) (w_raw w)) (w_psn w1)).
+      { constructor; auto. - apply (eff_raw _ _ _ E1). - exists []. split; [reflexivity|constructor]. }
+      destruct (run_scoped_rest_quiet t m (e_am (sc_env sc)) s lent body Ha ND skip w1 VUnit w1 (w_raw w) Qw1 eq_refl Ep
+                  (fun x => eq_refl) Cn) as [w2 [R2 _]].
+      cbn [sc_env e_am e_fuel] in R2. rewrite R2 in Rn. inversion Rn; subst out w'.
+      unfold rc. destruct (existsb is_cpanic body); [right|left]; reflexivity.
+    - cbn [run] in Rn. inversion Rn; subst out w'. reflexivity. }
+  assert (Same : holds_sim (snapshot_holds nl w') (snapshot_holds nl w) = true).
+  { assert (Sc : stop_code rc = false) by (destruct (can_all m (kleaves s) (w_raw w)); [destruct Hrc as [-> | ->]|rewrite Hrc]; reflexivity).
+    rewrite (snapshot_holds_ext nl w' w); [apply holds_sim_refl|]. intros x. rewrite (cq_raw _ _ _ _ _ _ _ CO Sc x). reflexivity. }
+  rewrite Same, andb_true_r.
+  destruct (can_all m (kleaves s) (w_raw w)); [destruct Hrc as [-> | ->]|rewrite Hrc]; reflexivity.
+Qed.
